@@ -210,7 +210,10 @@ def kbmag_text(table, layout):
     def lst(xs):
         return "[" + com.join(str(x) for x in xs) + "]"
 
-    if layout.get("accepting", "interval") == "interval" and n >= 1:
+    if layout.get("accepting_subset") is not None:
+        # a proper subset of accepting states (generic kbmag automata; the transition table is what it is)
+        accepting = lst([i for i in range(1, n + 1) if i in set(layout["accepting_subset"])])
+    elif layout.get("accepting", "interval") == "interval" and n >= 1:
         accepting = "[1..%d]" % n
     else:
         accepting = lst(range(1, n + 1))
